@@ -110,7 +110,42 @@ def subst(t, mp):
     """replace sub-terms according to mp (term -> term), outermost first"""
     if not mp:
         return t
-    return _subst(t, mp)
+    for k in mp:
+        if not (type(k) is tuple and len(k) == 2 and k[0] == "param"):
+            return _subst(t, mp)
+    return _subst_params(t, {k[1]: v for k, v in mp.items()})
+
+
+def _subst_params(t, pm):
+    """fast path: only ("param", name) leaves are replaced"""
+    tt = type(t)
+    if tt is tuple:
+        n = len(t)
+        if n == 2 and t[0] == "param":
+            return pm.get(t[1], t)
+        changed = False
+        out = []
+        for x in t:
+            tx = type(x)
+            if tx is tuple or tx is frozenset:
+                y = _subst_params(x, pm)
+                if y is not x:
+                    changed = True
+                out.append(y)
+            else:
+                out.append(x)
+        if not changed:
+            return t
+        r = tuple(out)
+        if n == 3 and r[0] == "sub" and is_lit(r[1], "dict") and is_const(r[2]):
+            hit = [v for k, v in r[1][2] if k == r[2]]
+            if hit:
+                return hit[-1]
+        return r
+    if tt is frozenset:
+        out = frozenset(_subst_params(x, pm) for x in t)
+        return t if out == t else out
+    return t
 
 
 def _subst(t, mp):
@@ -198,10 +233,23 @@ def access_path(t):
 
 
 def is_param_rooted(t, allow_elem=True):
-    """no fresh / free / closure-local ingredient anywhere in t"""
-    for s in subterms(t):
-        if _is_term_node(s) and s[0] in ("fresh", "free"):
+    """no fresh / free ingredient anywhere in t (direct recursion: this is the hottest helper)"""
+    tt = type(t)
+    if tt is tuple:
+        if t and (t[0] == "fresh" or t[0] == "free") and len(t) == _ARITY[t[0]]:
             return False
+        for x in t:
+            tx = type(x)
+            if (tx is tuple or tx is frozenset) and not is_param_rooted(x):
+                return False
+        return True
+    if tt is frozenset:
+        for x in t:
+            if not is_param_rooted(x):
+                return False
+        return True
+    if isinstance(t, tuple):  # Site / Exc records
+        return True
     return True
 
 
